@@ -342,6 +342,19 @@ def judge(ctx, case):
         elif got_blocked != recs or (k1 == 'ok' and got_blocked != got_plain):
             fail(ctx, case, 'records:blocked_differs_from_unblocked', {'lens': case['lens'],
                                                                       'got_lens': [len(r) for r in got_blocked]})
+        else:
+            # the same file object read by a second blocked reader after a rewind (count first, then read)
+            def again():
+                f = io.BytesIO(ref.block(stream))
+                next(m.VbsReader(f, blocked=True), None)
+                f.seek(0)
+                return list(m.VbsReader(f, blocked=True))
+            k3, got_again = ctx.call(again, budget=budget)
+            ctx.count('second blocked reader on a rewound file object')
+            if k3 != 'ok':
+                unexpected(ctx, case, k3, got_again, 'VbsReader(blocked) after rewind')
+            elif got_again != recs:
+                fail(ctx, case, 'records:second_reader_after_rewind_differs', {'lens': case['lens'], 'got_lens': [len(r) for r in got_again][:20]})
         ctx.case_done(['rec', case['lens']])
         return
     raise ValueError(kind)
